@@ -588,7 +588,36 @@ func (it *interp) eval0(e ast.Expr, w int) (bitdom.Vec, error) {
 			}
 			return a.Resize(w), nil
 		}
-		return it.fail(e, "call %s (only conversions between unsigned integer types are interpreted)", it.src(e))
+		// binary.BigEndian.UintN(bs) on an interpreted byte slice: byte k at bits 8(n-1-k)+7 .. 8(n-1-k)
+		if sel, ok := x.Fun.(*ast.SelectorExpr); ok && len(x.Args) == 1 {
+			if fn, ok := info.Uses[sel.Sel].(*types.Func); ok {
+				n := 0
+				switch fn.FullName() {
+				case "(encoding/binary.bigEndian).Uint16":
+					n = 2
+				case "(encoding/binary.bigEndian).Uint32":
+					n = 4
+				case "(encoding/binary.bigEndian).Uint64":
+					n = 8
+				}
+				base := it.pr.useOf(x.Args[0])
+				if name, ok := it.bytes[base]; ok && base != nil && n > 0 {
+					out := bitdom.Const(8*n, 0)
+					for k := 0; k < n; k++ {
+						if it.byteIdx == nil {
+							it.byteIdx = map[int]bool{}
+						}
+						it.byteIdx[k] = true
+						bv := bitdom.FromAtoms(fmt.Sprintf("%s[%d]", name, k), 8)
+						for b := 0; b < 8; b++ {
+							out[8*(n-1-k)+b] = bv[b]
+						}
+					}
+					return out.Resize(w), nil
+				}
+			}
+		}
+		return it.fail(e, "call %s (only conversions between unsigned integer types and binary.BigEndian.UintN of the fetched bytes are interpreted)", it.src(e))
 	case *ast.IndexExpr:
 		base := it.pr.useOf(x.X)
 		if base != nil && it.table && base == types.Object(it.pr.tableObj) {
